@@ -125,8 +125,21 @@ class SeqJob:
     pass
 
 
+def level0_partitions(k):
+    """set partitions of the keys by equality of their level-0 hash fragments: together they cover
+    every hash assignment; used to split one history into independent solver jobs"""
+    if k != 3:
+        return [None]
+    return [((0, 1, "eq"), (0, 2, "eq")),                       # all equal
+            ((0, 1, "eq"), (0, 2, "ne")),                       # {0,1} {2}
+            ((0, 2, "eq"), (0, 1, "ne")),                       # {0,2} {1}
+            ((1, 2, "eq"), (0, 1, "ne")),                       # {1,2} {0}
+            ((0, 1, "ne"), (0, 2, "ne"), (1, 2, "ne"))]         # all distinct
+
+
 def check_sequence(args):
-    seq, k, timeout_ms, max_paths = args
+    seq, k, timeout_ms, max_paths = args[:4]
+    partition = args[4] if len(args) > 4 else None
     out = {"seq": seq, "goals": 0, "ok": 0, "fail": [], "inconclusive": [], "paths": 0, "instr": 0,
            "queries": 0, "solver_s": 0.0, "samples": [], "validated": 0}
     src = driver_source(seq, k)
@@ -215,8 +228,13 @@ def check_sequence(args):
                 out["samples"].append({"sequence": [list(x) for x in seq], "path_constraints": len(o.path),
                                        "observations_checked": P.goals})
 
+        assumptions = []
+        if partition is not None:
+            frag = [z3.Extract(4, 0, B.hash_of_atom(a)) for a in keys]
+            for (i, j, rel) in partition:
+                assumptions.append(frag[i] == frag[j] if rel == "eq" else frag[i] != frag[j])
         try:
-            m.run(fn, arg, on_outcome, [])
+            m.run(fn, arg, on_outcome, assumptions)
         except Unsupported as e:
             out["inconclusive"].append("%r: %s" % (seq, e))
         except StopJob:
@@ -373,7 +391,7 @@ def main():
     rnd = random.Random(rep.seed)
     rnd.shuffle(seqs)
     import multiprocessing as mp
-    jobs = [(s, k, timeout_ms, max_paths) for s in seqs]
+    jobs = [(s, k, timeout_ms, max_paths, part) for s in seqs for part in level0_partitions(k)]
     extra = []
     if rep.tier == "quick":
         # the smallest histories that build three-key structure: insert three distinct keys, then
@@ -381,7 +399,7 @@ def main():
         extra = [s for s in sequences(3, 4) if len(s) == 4 and [op for op, _ in s[:3]] == ["put"] * 3
                  and sorted(key for _, key in s[:3]) == [0, 1, 2]
                  and s[3] in (("remove", 0), ("remove", 2))]
-        jobs += [(s, 3, timeout_ms, 400000) for s in extra]
+        jobs += [(s, 3, timeout_ms, 400000, part) for s in extra for part in level0_partitions(3)]
     with mp.Pool(16) as pool:
         results = pool.map(check_sequence, jobs, chunksize=1)
     for r in results:
